@@ -160,6 +160,38 @@ func init() {
 		return res
 	}
 
+	lz := func(w int) Intrinsic {
+		return func(e *Exec, fn *ssa.Function, a []Value) Value {
+			x := a[0].(*Term)
+			res := BVU(64, uint64(w))
+			for i := 0; i < w; i++ { // highest set bit wins: apply from low to high
+				res = Ite(Eq(Extract(i, i, x), BVU(1, 1)), BVU(64, uint64(w-1-i)), res)
+			}
+			return res
+		}
+	}
+	I["math/bits.LeadingZeros64"] = lz(64)
+	I["math/bits.LeadingZeros32"] = lz(32)
+	I["math/bits.LeadingZeros8"] = lz(8)
+	blen := func(w int) Intrinsic {
+		return func(e *Exec, fn *ssa.Function, a []Value) Value {
+			return BVSub(BVU(64, uint64(w)), lz(w)(e, fn, a).(*Term))
+		}
+	}
+	I["math/bits.Len64"] = blen(64)
+	I["math/bits.Len32"] = blen(32)
+	I["math/bits.Len"] = blen(64)
+	I["math/bits.OnesCount32"] = func(e *Exec, fn *ssa.Function, a []Value) Value { return ZExt(64, popcount(a[0].(*Term))) }
+	I["math/bits.OnesCount"] = func(e *Exec, fn *ssa.Function, a []Value) Value { return ZExt(64, popcount(a[0].(*Term))) }
+	I["math/bits.TrailingZeros32"] = func(e *Exec, fn *ssa.Function, a []Value) Value {
+		x := a[0].(*Term)
+		res := BVU(64, 32)
+		for i := 31; i >= 0; i-- {
+			res = Ite(Eq(Extract(i, i, x), BVU(1, 1)), BVU(64, uint64(i)), res)
+		}
+		return res
+	}
+
 	// ----- bitmap (unsafe casts / assembly in the library) -----
 	I["github.com/kelindar/bitmap.FromBytes"] = func(e *Exec, fn *ssa.Function, a []Value) Value {
 		bs := sliceTerms(a[0])
